@@ -781,3 +781,110 @@ Lemma doubles_bad_length p : (length p mod double_size <> 0)%nat -> parse_double
 Proof. apply parse_fixed_none. discriminate. Qed.
 Lemma doubles_parses p : (length p mod double_size = 0)%nat -> exists c, parse_doubles p = Some c.
 Proof. apply parse_fixed_some. Qed.
+
+(* ------------------------------------------------------------------------------------ *)
+(* the file around the lists                                                             *)
+(* ------------------------------------------------------------------------------------ *)
+Lemma reset_nevlr x : reset_field "number_of_evlrs" x = 0.
+Proof.
+  unfold reset_field.
+  assert (existsb (String.eqb "number_of_evlrs") partial_reset_zeroes = true) as -> by (vm_compute; reflexivity).
+  reflexivity.
+Qed.
+
+Lemma reset_estart x : reset_field "start_of_first_evlr" x = 0.
+Proof.
+  unfold reset_field.
+  assert (existsb (String.eqb "start_of_first_evlr") partial_reset_zeroes = true) as -> by (vm_compute; reflexivity).
+  reflexivity.
+Qed.
+
+(* the writer does to its header what the model says, nothing else *)
+Theorem writer_ops_modelled : writer_header_ops = modelled_writer_header_ops
+  /\ write_evlrs_version_guard = "self.header.version.minor < 4"%string
+  /\ write_evlrs_guard = "len(evlrs) > 0"%string
+  /\ write_evlrs_ops = modelled_write_evlrs_ops.
+Proof. vm_compute. repeat split; reflexivity. Qed.
+
+(* whatever header the writer is given (read from another file, used for an earlier write, ...): the file written
+   depends on the lists only *)
+Theorem file_ignores_stale hs v14 s1 s2 vl pts evl :
+  write_file hs v14 s1 vl pts evl = write_file hs v14 s2 vl pts evl.
+Proof. unfold write_file, partial_reset. cbn [l_nevlr l_estart]. now rewrite !reset_nevlr, !reset_estart. Qed.
+
+Lemma skipn_app_length {A} (a b : list A) : skipn (length a) (a ++ b) = b.
+Proof. induction a as [|x a IH]; [reflexivity|exact IH]. Qed.
+
+Lemma read_known_all ext vl bs : forallb (wf_vlr ext) vl = true -> enc_vlrs ext vl = Ok bs ->
+  read_known ext (length vl) bs = Ok (map vlr_factory vl, []).
+Proof. intros Hwf He. rewrite <- (app_nil_r bs) at 1. now apply read_after_write. Qed.
+
+Theorem file_roundtrip hs v14 stale vl pts evl loc body :
+  forallb (wf_vlr false) vl = true -> forallb (wf_vlr true) (opt_list evl) = true ->
+  write_file hs v14 stale vl pts evl = Ok (loc, body) ->
+  read_file hs v14 loc body
+  = Ok (map vlr_factory vl, if v14 then Some (map vlr_factory (opt_list evl)) else None).
+Proof.
+  intros Hv He Hw. unfold write_file, partial_reset in Hw. cbn [l_nevlr l_estart] in Hw.
+  rewrite reset_nevlr, reset_estart in Hw.
+  destruct (enc_vlrs false vl) as [vb|e] eqn:Evb; [|discriminate]. cbn [bind] in Hw.
+  assert (forall tail, read_known false (Z.to_nat (len vl)) (vb ++ tail) = Ok (map vlr_factory vl, tail)) as Hrv.
+  { intros tail. unfold len. rewrite Nat2Z.id. now apply read_after_write. }
+  destruct evl as [el|].
+  - destruct v14; cbn [negb] in Hw; [|discriminate].
+    destruct el as [|e0 el].
+    + cbn [bind fst snd] in Hw. injection Hw as <- <-. unfold read_file. cbn [l_nvlr l_nevlr].
+      rewrite Hrv. reflexivity.
+    + cbn [opt_list] in He. destruct (enc_vlrs true (e0 :: el)) as [eb|e] eqn:Eeb; [|discriminate].
+      cbn [bind fst snd] in Hw. injection Hw as <- <-. unfold read_file. cbn [l_nvlr l_nevlr l_estart l_offset].
+      rewrite Hrv. cbn [bind fst].
+      assert ((0 <? len (e0 :: el)) = true) as -> by (unfold len; cbn [length]; lia).
+      replace (Z.to_nat (hs + len vb + len pts - hs)) with (length (vb ++ pts)) by (unfold len; rewrite app_length; lia).
+      rewrite app_assoc, skipn_app_length. unfold len. rewrite Nat2Z.id.
+      rewrite (read_known_all true (e0 :: el) eb He Eeb). reflexivity.
+  - cbn [bind fst snd] in Hw. unfold read_file.
+    destruct v14; injection Hw as <- <-; cbn [l_nvlr l_nevlr]; rewrite Hrv; reflexivity.
+Qed.
+
+(* where the records are: the VLR bytes right after the header, then the points, then the EVLR bytes up to the end
+   of the file; the header says how many and where; no EVLRs: count and start are 0 *)
+Theorem file_layout hs v14 stale vl pts evl loc body : write_file hs v14 stale vl pts evl = Ok (loc, body) ->
+  exists vb eb, enc_vlrs false vl = Ok vb /\ enc_vlrs true (opt_list evl) = Ok eb
+    /\ body = vb ++ pts ++ eb /\ l_nvlr loc = len vl /\ l_offset loc = hs + len vb
+    /\ (opt_list evl = [] \/ v14 = false -> l_nevlr loc = 0 /\ l_estart loc = 0)
+    /\ (opt_list evl <> [] -> v14 = true /\ l_nevlr loc = len (opt_list evl) /\ l_estart loc = hs + len vb + len pts).
+Proof.
+  intros Hw. unfold write_file, partial_reset in Hw. cbn [l_nevlr l_estart] in Hw.
+  rewrite reset_nevlr, reset_estart in Hw.
+  destruct (enc_vlrs false vl) as [vb|e] eqn:Evb; [|discriminate]. cbn [bind] in Hw. exists vb.
+  destruct evl as [el|].
+  - destruct v14; cbn [negb] in Hw; [|discriminate]. destruct el as [|e0 el].
+    + cbn [bind fst snd] in Hw. injection Hw as <- <-. exists []. cbn [opt_list enc_vlrs l_nvlr l_offset l_nevlr l_estart].
+      rewrite !app_nil_r. repeat split; try reflexivity;
+        match goal with H : ?x <> ?x |- _ => now contradiction H end.
+    + destruct (enc_vlrs true (e0 :: el)) as [eb|e] eqn:Eeb; [|discriminate].
+      cbn [bind fst snd] in Hw. injection Hw as <- <-. exists eb. cbn [opt_list l_nvlr l_offset l_nevlr l_estart].
+      repeat split; try reflexivity; try assumption;
+        match goal with H : _ \/ _ |- _ => destruct H; discriminate end.
+  - cbn [bind fst snd] in Hw. exists []. cbn [opt_list enc_vlrs]. rewrite !app_nil_r.
+    destruct v14; injection Hw as <- <-; cbn [l_nvlr l_offset l_nevlr l_estart]; repeat split; try reflexivity;
+      match goal with H : ?x <> ?x |- _ => now contradiction H end.
+Qed.
+
+(* the lists a user got from a 1.4 file, written again through a header of any origin and read again: the same
+   records, in order (classes, contents, ids, descriptions) *)
+Theorem file_next_generation hs stale vl el vl' el' pts loc body :
+  forallb (wf_vlr false) vl = true -> forallb (wf_vlr true) el = true ->
+  kv_records (map vlr_factory vl) = Ok vl' -> kv_records (map vlr_factory el) = Ok el' ->
+  forallb (wf_vlr false) vl' = true -> forallb (wf_vlr true) el' = true ->
+  write_file_known hs true stale (map vlr_factory vl) pts (Some (map vlr_factory el)) = Ok (loc, body) ->
+  read_file hs true loc body = Ok (map vlr_factory vl, Some (map vlr_factory el)).
+Proof.
+  intros Hv He Kv Ke Hv' He' Hw. unfold write_file_known in Hw. rewrite Kv in Hw. cbn [bind negb] in Hw.
+  rewrite Ke in Hw. cbn [bind] in Hw.
+  assert (forall ext l, forallb (wf_vlr ext) l = true -> Forall (fun v => bytes_ok (v_data v) = true) l) as Hb.
+  { intros ext l H. apply Forall_forall. intros v Hin. rewrite forallb_forall in H. apply (wf_vlr_bytes ext). now apply H. }
+  destruct (kv_records_stable vl vl' (Hb _ _ Hv) Kv) as (H1 & _).
+  destruct (kv_records_stable el el' (Hb _ _ He) Ke) as (H2 & _).
+  rewrite (file_roundtrip hs true stale vl' pts (Some el') loc body Hv' He' Hw). cbn [opt_list]. now rewrite H1, H2.
+Qed.
